@@ -6,7 +6,7 @@ META = {
     "technique": "Lean 4 theorems over an executable model of groupbalancer.go (Range, RoundRobin, RackAffinity with Go's map iteration orders as explicit parameters), for all member / partition lists; model↔code differential correspondence through a compiled Lean oracle on exhaustively enumerated small groups and seeded random large ones; the C14 monitor (cover, only-subscribers, balance, run/stride shape, rack bound) is evaluated on the implementation's output",
     "level_claimed": {
         "category": "proof",
-        "text": "Kernel-checked theorems for every list of members with distinct ids (topic lists may repeat topics) and every list of partitions (no size bound): each listed partition of a subscribed topic goes to exactly one subscriber, nothing to non-subscribers, loads differ by at most one — for Range, RoundRobin and RackAffinity; Range = contiguous runs by id rank, RoundRobin = strides by id rank, both invariant under member listing order; RackAffinity for every iteration order of its two Go map loops: no out-of-range slice/index (rack_total), cover, balance and the per-rack affinity bound min(led in rack, members in rack x floor(P/M)). The model is tied to groupbalancer.go by index/selection/ordering expressions re-extracted from the source on every run (Gen/GroupBalancerSel.lean, *_regenerated theorems) and by running the real AssignGroups and the model on the same generated groups (RackAffinity: equal to the model for some pair of iteration orders). Leader glue (joinGroup / makeMemberProtocolMetadata / assignTopicPartitions / makeSyncGroupRequestV0 / syncGroup) modelled as pure functions: glue_preserves (what a member decodes is its own entry of the balancer's map, nothing leaks between members, for every map iteration order), *_delivered (cover / balance / only-subscribers hold of what the members RECEIVE); tied by driving the real glue through verif_export_c14b.go and by extracted structural facts (fresh per-member map, repeated-topic guard). Round 4: extractTopics/readPartitions and makeAssignments steps (range/rr/rack_round, generation_view_is_delivered: C14 of Generation.Assignments w.r.t. the cluster's listing); byte-level model of groupMetadata / groupAssignment with read-after-write theorems in the reader monad (assignment/metadata_bytes_roundtrip); the concurrent life cycle as an LTS of N members and a coordinator over any number of rebalances (Model/GroupRound: generation_from_its_round, lifecycle_good), linked to C15's GroupRun steps and exercised on real concurrent ConsumerGroups.",
+        "text": "Kernel-checked theorems for every list of members with distinct ids (topic lists may repeat topics) and every list of partitions (no size bound): each listed partition of a subscribed topic goes to exactly one subscriber, nothing to non-subscribers, loads differ by at most one — for Range, RoundRobin and RackAffinity; Range = contiguous runs by id rank, RoundRobin = strides by id rank, both invariant under member listing order; RackAffinity for every iteration order of its two Go map loops: no out-of-range slice/index (rack_total), cover, balance and the per-rack affinity bound min(led in rack, members in rack x floor(P/M)). The model is tied to groupbalancer.go by index/selection/ordering expressions re-extracted from the source on every run (Gen/GroupBalancerSel.lean, *_regenerated theorems) and by running the real AssignGroups and the model on the same generated groups (RackAffinity: equal to the model for some pair of iteration orders). Leader glue (joinGroup / makeMemberProtocolMetadata / assignTopicPartitions / makeSyncGroupRequestV0 / syncGroup) modelled as pure functions: glue_preserves (what a member decodes is its own entry of the balancer's map, nothing leaks between members, for every map iteration order), *_delivered (cover / balance / only-subscribers hold of what the members RECEIVE); tied by driving the real glue through verif_export_c14b.go and by extracted structural facts (fresh per-member map, repeated-topic guard). Round 4: extractTopics/readPartitions and makeAssignments steps (range/rr/rack_round, generation_view_is_delivered: C14 of Generation.Assignments w.r.t. the cluster's listing); byte-level model of groupMetadata / groupAssignment with read-after-write theorems in the reader monad (assignment/metadata_bytes_roundtrip); the concurrent life cycle as an LTS of N members and a coordinator over any number of rebalances (Model/GroupRound: generation_from_its_round, lifecycle_good), linked to C15's GroupRun steps and exercised on real concurrent ConsumerGroups. Round 5: missing-topic path of assignTopicPartitions / readTopicMetadata (missing_topic_reads; finding C14-D31 fixed), executable acceptor of the life-cycle model proved sound and fed with traces of real ConsumerGroups against the independent groupmock.Sim coordinator.",
         "design_ref": "DESIGN.md §7 C14",
     },
     "level_note": "Trusted: Lean kernel; propext/Classical.choice/Quot.sound; the driver/oracle correspondence (exhaustive small + sampled large inputs; Go's map iteration order is sampled, the theorems quantify over all orders); Go's sort.Slice and string comparison are modelled (insertion sort over an order-embedding of the ids) and validated by correspondence only; ids/topics/racks are opaque keys.",
@@ -24,6 +24,7 @@ def run(ctx):
         "RackAffinity: the iteration orders are duplicate-free lists containing every rack that leads a partition of the topic (IterOrder) — what ranging over a Go map gives when only the current key is replaced/deleted inside the loop",
         "Go int arithmetic on indices/lengths is modelled on Nat: index x length products do not overflow int64 for real slices",
         "life cycle (Model/GroupRound): the coordinator is an environment model of Kafka's group protocol (one assignment stored per generation, SyncGroup answered per (member id, generation id) with what that generation's leader stored); one member's control flow is C15's GroupRun LTS",
+        "C14 speaks about the assignments that are distributed: a metadata lookup failing with anything but UnknownTopicOrPartition fails the join (nothing is distributed); a missing topic is 'no assignments for that topic' (finding C14-D31 fixed: it used to be no assignments for any topic)",
         "equal member ids are outside the quantifier: member ids are generated by the coordinator (client id + UUID, or one id per group.instance.id) and the JoinGroup member list is keyed by them",
     ]
     broken = []
@@ -44,6 +45,10 @@ def run(ctx):
             broken.append({"kind": "obligation", "name": "driver c14 crashed", "detail": err[-1500:]})
         dis = ctx.correspond(lines, orc, "groupbalancer.go ↔ Model/GroupBalancer.lean",
                              nontrivial=lambda op, impl: impl != "-")
+        budget = exhaustive_budget(lines)
+        ctx.coverage["exhaustive_budget"] = budget
+        if not budget["ok"]:
+            broken.append({"kind": "obligation", "name": "generator budget: the exhaustive part of the C14 generator no longer enumerates what the evidence claims", "detail": str(budget)})
     ctx.coverage["rule"] = (
         "exhaustive: members 1..4 (ids from a pool of tricky strings: prefixes, empty, NUL, high-bit, 'member-10' vs 'member-9'), "
         "topics <= 2 with all 7 subscription listings per member ({}, {0}, {1}, {0,1}, {1,0}, {0,0}, {1,0,1}), partitions (p0,p1) with p0+p1 <= 6 listed interleaved "
@@ -53,6 +58,8 @@ def run(ctx):
         "helpers findMembersByTopic / findPartitions (verif export hook) on every random group and 1/7 of the small ones; "
         "RackAffinity: each group called 4 (quick) / 12 (thorough) times, every distinct output is a case (Go map order is sampled, not controlled). "
         "round 4: xtopics (extractTopics), v<balancer> (Generation.Assignments after fetchOffsets/makeAssignments), byte level abytes/aread/mbytes/mread (600 / 8000 values: names up to 400 bytes, any int32, nil/empty user data, cut frames), life cycle l<balancer>: 9 / 60 histories of 2..5 real ConsumerGroups joining and leaving against an in-process coordinator, one case per stable generation (a phase that does not stabilise within 4 s is skipped, never a violation). "
+        "round 5: w<balancer> = a round in which one subscribed topic does not exist (Metadata answer read by the real readTopicMetadatav1; 1/4 of the random groups with >= 2 topics); life-cycle racks decoded from the members' real JoinGroup metadata. "
+        "ltrace: 6 / 40 histories of real ConsumerGroups (Range) against groupmock.Sim, coordinator answers recorded and replayed through the executable acceptor of Model/GroupRound (accepted + every SyncGroup answer predicted). exhaustive budget measured from the driver lines (coverage.exhaustive_budget). "
         "distinct = distinct op lines with a non-empty assignment")
     concrete = [d for d in dis if d.get("kind") == "disagreement" and not d["holds_on_impl"]]
     cids = {id(d) for d in concrete}          # (list membership on 10^5 dicts is quadratic: a mutant must cost seconds)
@@ -73,3 +80,41 @@ def run(ctx):
 
 
 DRIVER_ARGS = []
+
+LISTINGS = {"-", "0", "1", "0,1", "1,0", "0,0", "1,0,1"}
+
+
+def exhaustive_budget(lines):
+    """measured, not assumed: the exhaustive part must contain, for Range and RoundRobin, every ORDERED tuple of the 7
+    subscription listings for 1..3 members (7 + 49 + 343 = 399) with every split (p0, p1), p0 + p1 <= 6 (28 each), and a
+    sample of the 4-member tuples; the other op families must be present at all"""
+    seen = {"range": set(), "rr": set()}
+    four = {"range": set(), "rr": set()}
+    fams = {}
+    for l in lines:
+        if "\t" not in l:
+            continue
+        req = l.split("\t", 1)[0].split(" ")
+        op = req[0]
+        fams[op] = fams.get(op, 0) + 1
+        if op not in seen or len(req) != 3:
+            continue
+        ms = [] if req[1] == "-" else req[1].split(";")
+        tl = tuple(m.split("/")[2] for m in ms)
+        if not (1 <= len(tl) <= 4) or any(t not in LISTINGS for t in tl):
+            continue
+        ps = [] if req[2] == "-" else req[2].split(";")
+        topics = [p.split("/")[0] for p in ps]
+        if any(t not in ("0", "1") for t in topics) or len(ps) > 6:
+            continue
+        key = (tl, topics.count("0"), topics.count("1"))
+        (seen if len(tl) <= 3 else four)[op].add(key)
+    want = 399 * 28
+    need_fams = ["range", "rr", "rack", "grange", "grr", "grack", "vrange", "vrr", "vrack", "wrange", "wrr", "wrack", "fmbt", "fparts",
+                 "xtopics", "abytes", "aread", "mbytes", "mread"]
+    res = {"range_le3": len(seen["range"]), "rr_le3": len(seen["rr"]), "want_le3": want,
+           "range_4": len(four["range"]), "rr_4": len(four["rr"]), "want_4_at_least": 3000,
+           "missing_families": [f for f in need_fams if fams.get(f, 0) == 0]}
+    res["ok"] = (res["range_le3"] >= want and res["rr_le3"] >= want and res["range_4"] >= 3000 and res["rr_4"] >= 3000
+                 and not res["missing_families"])
+    return res
